@@ -261,3 +261,61 @@ def rule_mirror(ctx: Ctx) -> None:
                          f"denotes in inverse_circuit's list", func="TimeReversedSolver._add_gates_from_str",
                          construct=f"_add_gates_from_str: tag '{tag}' -> {[e.name for e in evs]}")
     return handled
+
+
+
+# one named exception, read before arming (Engler et al.: the unchecked path relies on a shape invariant)
+GUARDED_FIRST_INVARIANT = {
+    ("TimeReversedSolver._time_reversed_measurement", "emitter_indices"):
+        "emitter_indices[0] is unguarded, but the generator comes from `possible_generators` (rows that are trivial on all photons, "
+        "length asserted): a valid tableau has no identity row, so such a row acts on at least one emitter",
+}
+
+
+def rule_guarded_first(ctx: Ctx) -> None:
+    """guarded-first: the first element of an index array obtained from np.nonzero / np.where / a helper returning one is
+    only taken after its length was checked (the solver does so for `possible_generators`; an unguarded sibling raises
+    IndexError when no emitter participates — e.g. for a photon that is an isolated vertex of the target)."""
+    repo = ctx.repo
+    m = repo.module(TRS)
+    cls = repo.cls("TimeReversedSolver", TRS)
+    array_helpers = set()
+    for name, fn in cls.methods().items():
+        rets = [r for r in ast.walk(fn) if isinstance(r, ast.Return) and r.value is not None]
+        if rets and all(isinstance(r.value, ast.Subscript) and isinstance(r.value.value, ast.Call) and call_attr(r.value.value) in ("nonzero", "where")
+                        for r in rets):
+            array_helpers.add(name)
+    n = 0
+    for name, fn in cls.methods().items():
+        fnq = f"TimeReversedSolver.{name}"
+        arrays = {}
+        for st in ast.walk(fn):
+            if isinstance(st, ast.Assign) and len(st.targets) == 1 and isinstance(st.targets[0], ast.Name):
+                v = st.value
+                src = v.value if isinstance(v, ast.Subscript) else v
+                if isinstance(src, ast.Call) and (call_attr(src) in ("nonzero", "where", "setdiff1d") or call_attr(src) in array_helpers):
+                    arrays[st.targets[0].id] = st
+        for node in ast.walk(fn):
+            if isinstance(node, ast.Subscript) and isinstance(node.value, ast.Name) and node.value.id in arrays \
+                    and isinstance(node.slice, ast.Constant) and node.slice.value == 0 and isinstance(node.ctx, ast.Load):
+                n += 1
+                arr = node.value.id
+                guarded = False
+                for g in ast.walk(fn):
+                    if isinstance(g, (ast.Assert, ast.If, ast.While)) and f"len({arr})" in norm(g.test) and g.lineno <= node.lineno:
+                        guarded = True
+                    if isinstance(g, ast.For) and norm(g.iter) == arr and any(node is x for x in ast.walk(g)):
+                        guarded = True
+                if guarded:
+                    ctx.ok("guarded-first", m, node, what=f"{fnq}: {arr}[0] after a length check")
+                elif (fnq, arr) in GUARDED_FIRST_INVARIANT:
+                    ctx.fail("guarded-first", m, node, GUARDED_FIRST_INVARIANT[(fnq, arr)], func=fnq, advisory=True)
+                    ctx.ok("guarded-first", m, node, what="non-empty by a shape invariant (named exception)")
+                else:
+                    ctx.fail("guarded-first", m, node,
+                             f"{fnq} takes `{arr}[0]` of the index array `{short(arrays[arr].value, 60)}` without checking that it is non-empty; "
+                             f"the sibling site `possible_generators[0]` asserts its length first. When no emitter takes part in the chosen "
+                             f"generator (a photon that is an isolated vertex of the target) this raises IndexError", func=fnq,
+                             construct=f"{fnq}: unguarded {arr}[0]")
+    if n == 0:
+        raise AnalysisError("guarded-first: no first-element access found")
